@@ -4,8 +4,8 @@
 -/
 import FcModel.StructuredEq
 import FcModel.Spec.C03
-namespace Fc.Spec
-open Fc
+namespace Fc.C16
+open Fc Fc.Spec Fc.C03
 
 /-- two parameter lists of the same length whose entries pairwise satisfy the documented formula -/
 def listWithin (rel abs : Nat) (x y : List Int) : Bool :=
@@ -30,4 +30,4 @@ def imageParamsWithin (rel abs : Nat) (a b : ImageGrid) : Bool :=
     tolerances and the receiver is not an explicit `Mesh` -/
 def tolDiffer (a b : TMesh) : Bool := a.rel != b.rel || a.abs != b.abs
 
-end Fc.Spec
+end Fc.C16
